@@ -59,9 +59,18 @@ func CompareDomainName(s1, s2 string) (n int) {
 	i1 := len(l1) - 2 // start
 	j2 := len(l2) - 1
 	i2 := len(l2) - 2
+	// the root dot of a fully qualified name is not part of its last label
+	e1 := len(s1)
+	if IsFqdn(s1) {
+		e1--
+	}
+	e2 := len(s2)
+	if IsFqdn(s2) {
+		e2--
+	}
 	// the second check can be done here: last/only label
 	// before we fall through into the for-loop below
-	if equal(s1[l1[j1]:], s2[l2[j2]:]) {
+	if equal(s1[l1[j1]:e1], s2[l2[j2]:e2]) {
 		n++
 	} else {
 		return
